@@ -34,7 +34,7 @@ const (
 	c19LongLine = 70000 // beyond bufio.Scanner's 64 KiB token limit
 )
 
-var c19Classes = []string{"ascii", "tabfront", "tabmid", "mbfront", "mbcut"}
+var c19Classes = []string{"ascii", "tabfront", "tabmid", "mbfront", "mbcut", "percent"}
 
 // c19Layout places the diagnostic line (1-based D) in a file of N lines.
 type c19Layout struct {
@@ -102,6 +102,18 @@ func c19Line(class string, L int, marker byte) string {
 			if p%29 == 5 || p%29 == 6 {
 				out[p] = '\t'
 			}
+		}
+	case "percent":
+		// source text is data, never a format: a '%' every 37 bytes, followed by whatever the stream has there
+		// (mostly invalid verbs), and "%%" / "% d" near the start
+		out = append(out, stream[:L]...)
+		for p := range out {
+			if p%37 == 9 {
+				out[p] = '%'
+			}
+		}
+		if L > 4 {
+			out[1], out[2] = '%', '%'
 		}
 	case "mbfront":
 		for len(out)+2 <= L && len(out) < 6 {
